@@ -113,8 +113,10 @@ def _chunk_check(c, paths):
     obs.append((c.st, 'chunk_starts_cover_the_window', band(band(compare('==', rng.start, jlo), compare('==', rng.step, step)), compare('>', rng.stop, jhi))))
     wq = e0['wavelengths']
     Wv = c.A(wq)
-    lo = c.interp.__dict__['mono_window'][0].value
-    hi = c.interp.__dict__['mono_window'][1].value
+    # (the limits may be given in any length unit: compared in the unit of the wavelengths)
+    w0, w1 = c.interp.__dict__['mono_window']
+    lo = w0.value * (w0.unit.scale / wq.unit.scale)
+    hi = w1.value * (w1.unit.scale / wq.unit.scale)
     obs.append((c.st, 'window_is_exactly_the_wavelengths_inside', c.forall(Wv.n, lambda k: band(compare('<=', jlo, k), compare('<=', k, jhi)) == band(Wv[k] >= lo, Wv[k] < hi), 'window')))
     obs.append((c.st, 'window_indices_in_range', band(compare('<=', 0, jlo), compare('<', jhi, Wv.n))))
     for s, ev, status in paths:
@@ -331,7 +333,7 @@ def _write_check(c, paths):
 class Monochromatic(Contract):
     name = MONO
     properties = ('C16',)
-    variants = ('window',)
+    variants = ('window', 'window/nm')        # (window limits in micron / in nm)
     loops = {1: EventLoop('chunks', _chunk_check, item=_chunk_item, havoc=_names_havoc),
              2: EventLoop('models', _sed_check, item=_sed_item),
              3: EventLoop('fill', _fill_check, item=_pos_item),
@@ -355,14 +357,15 @@ class Monochromatic(Contract):
         from sedvc.extmodels import table_new
         c.interp.ext['astropy.table.Table'] = lambda interp, st, fr, args, kw: table_new(st, {}, None)
         args = dict(model_dir='MODELDIR', overwrite=False, max_ram=c.real('max_ram'),
-                    wav_min=Quantity(c.real('wav_min'), U['micron']), wav_max=Quantity(c.real('wav_max'), U['micron']))
+                    wav_min=Quantity(c.real('wav_min'), U['nm' if variant.endswith('/nm') else 'micron']),
+                    wav_max=Quantity(c.real('wav_max'), U['nm' if variant.endswith('/nm') else 'micron']))
         c.interp.mono_window = (args['wav_min'], args['wav_max'])
         return args
 
     def requires(self, c, a):
         M, A, W = self.dims
         wav = c.A(self.wav)
-        lo, hi = a.wav_min.value, a.wav_max.value
+        lo, hi = a.wav_min.value * (a.wav_min.unit.scale / U['micron'].scale), a.wav_max.value * (a.wav_max.unit.scale / U['micron'].scale)
         return {'memory_for_at_least_one_wavelength': a.max_ram * (1024 ** 3) >= 8 * (M * A),
                 # the property quantifies over windows holding at least one tabulated wavelength
                 'window_holds_a_wavelength': c.Any(W, lambda k: band(wav[k] >= lo, wav[k] < hi))}
